@@ -692,7 +692,7 @@ impl Engine for C10 {
     fn default_runs(&self, tier: Tier) -> u64 {
         match tier {
             Tier::Quick => 100_000,
-            Tier::Thorough => 8_000_000,
+            Tier::Thorough => 5_000_000,
         }
     }
     fn init(&self) {
